@@ -657,7 +657,7 @@ impl Gen<'_> {
             if self.rng.chance(1, 14) {
                 rs.push((pieces[i].0, 0)); // zero-size inlinee at the start (sorts before its sibling)
             }
-            if self.rng.chance(1, 40) && pieces[i].1 > pieces[i].0 + 1 {
+            if self.rng.chance(1, 40) && pieces[i].1 > pieces[i].0.saturating_add(1) {
                 rs.push((pieces[i].0 + 1, 0)); // zero-size inlinee strictly inside its sibling (finding C11-zero-size-inlinee, fixed)
             }
             let depth = if !self.clean && self.rng.chance(1, 25) { d + 1 } else { d }; // depth gap
@@ -951,7 +951,7 @@ fn exhaustive(tier: Tier, emit: &mut dyn FnMut(String)) {
 fn generate_inner(tier: Tier, rng: &mut Rng, emit: &mut dyn FnMut(String)) {
     exhaustive(tier, emit);
     {
-        let n = if tier == Tier::Quick { 12000 } else { 150000 };
+        let n = if tier == Tier::Quick { 60000 } else { 150000 };
         for k in 0..n {
             let clean = k % 2 == 0;
             let base: u64 = match rng.below(5) {
